@@ -20,7 +20,7 @@ ID = "C14"
 PROPS = "Props/C14.v"
 EXTRACT = "extract/ExC14.v"
 OBLIGATION = "merkle-collect-history"
-THEOREMS = ["C14_inv_step", "C14_complete", "C14_idempotent", "C14_reset", "C14_guards_satisfiable"]
+THEOREMS = ["C14_inv_step", "C14_complete", "C14_idempotent", "C14_reset", "C14_reports_sound", "C14_guards_satisfiable"]
 RULE = ("C10's histories (5-60 operations over <= 12 generic or Directory/Content nodes, DAGs with shared and "
         "structurally equal nodes) with collect / reset_collect at random nodes between mutations, reads and forced "
         "updates, and detach / mutate-or-not / re-attach of a subtree; non-trivial = at least 2 collects and a "
@@ -53,7 +53,7 @@ def detach_scenario(rng, world):
 
 
 def gen(rng, tier):
-    n_cases = 700 if tier == "quick" else 30000
+    n_cases = 1500 if tier == "quick" else 30000
     cases = []
     for k in range(n_cases):
         world = "generic" if k % 2 == 0 else "disk"
